@@ -29,6 +29,8 @@ def load_mutants() -> list[dict]:
         for d in sorted(sd.iterdir()):
             if (d / "patch.diff").exists() and (d / "meta.json").exists():
                 meta = json.loads((d / "meta.json").read_text())
+                if meta.get("obsolete"):
+                    continue  # no longer a property-breaking change on the current tree (reason in its meta.json)
                 muts.append({"prop": meta["property"], "name": f"seeded/{d.name}", "patch": str(d / "patch.diff"),
                              "also": meta.get("also_checked_by", [])})
     return muts
